@@ -246,7 +246,18 @@ func c18File(c *Ctx, path string, src []byte, out *ndjson) {
 }
 
 // c18Package: ast.NewPackage on the originals vs dst.NewPackage on the decorated files.
+// mode: "" (nil importer, nil universe), "universe" (a universe scope with the predeclared types, nil
+// importer: every import fails), "importer" (universe + an importer that knows fmt and fails on others)
 func c18Package(c *Ctx, key string, srcs map[string][]byte, out *ndjson) {
+	for _, mode := range []string{"", "universe", "importer"} {
+		c18PackageMode(c, key, srcs, out, mode)
+	}
+}
+
+func c18PackageMode(c *Ctx, key string, srcs map[string][]byte, out *ndjson, mode string) {
+	if mode != "" {
+		key += "|" + mode
+	}
 	fset := token.NewFileSet()
 	afiles := map[string]*ast.File{}
 	dfiles := map[string]*dst.File{}
@@ -280,16 +291,60 @@ func c18Package(c *Ctx, key string, srcs map[string][]byte, out *ndjson) {
 			}
 			af.Unresolved = append([]*ast.Ident{}, unresolved[name]...)
 		}
-		ap, err := ast.NewPackage(fset, afiles, nil, nil)
+		var auni *ast.Scope
+		var duni *dst.Scope
+		var aimp ast.Importer
+		var dimp dst.Importer
+		if mode != "" {
+			auni, duni = ast.NewScope(nil), dst.NewScope(nil)
+			for _, n := range []string{"int", "string", "rune", "bool", "error", "len", "nil", "true", "false", "iota", "print"} {
+				auni.Insert(ast.NewObj(ast.Typ, n))
+				duni.Insert(dst.NewObj(dst.Typ, n))
+			}
+		}
+		if mode == "importer" {
+			aimp = func(imports map[string]*ast.Object, path string) (*ast.Object, error) {
+				if path != "fmt" {
+					return nil, fmt.Errorf("cannot import %s", path)
+				}
+				if o := imports[path]; o != nil {
+					return o, nil
+				}
+				o := ast.NewObj(ast.Pkg, "fmt")
+				o.Data = ast.NewScope(nil)
+				imports[path] = o
+				return o, nil
+			}
+			dimp = func(imports map[string]*dst.Object, path string) (*dst.Object, error) {
+				if path != "fmt" {
+					return nil, fmt.Errorf("cannot import %s", path)
+				}
+				if o := imports[path]; o != nil {
+					return o, nil
+				}
+				o := dst.NewObj(dst.Pkg, "fmt")
+				o.Data = dst.NewScope(nil)
+				imports[path] = o
+				return o, nil
+			}
+		}
+		ap, err := ast.NewPackage(fset, afiles, aimp, auni)
 		aerr = err
 		sa := []string{}
 		if ap != nil {
 			sa = scopeNames(reflect.ValueOf(ap.Scope))
 		}
-		outcomesA[strings.Join(sa, ",")+" | "+strings.Join(normErrs(err), "; ")] = true
+		ua := []string{}
+		for name, af := range afiles {
+			for _, u := range af.Unresolved {
+				ua = append(ua, name+":"+u.Name)
+			}
+		}
+		sort.Strings(ua)
+		outcomesA[strings.Join(sa, ",")+" | "+strings.Join(normErrs(err), "; ")+" | unresolved "+strings.Join(ua, ",")] = true
 		var dp *dst.Package
 		var derr error
-		if msg := guard(func() { dp, derr = dst.NewPackage(fset, dfiles, nil, nil) }); msg != "" {
+		if msg := guard(func() { dp, derr = dst.NewPackage(fset, dfiles, dimp, duni) }); msg != "" {
 			c.Fail(Finding{Sig: "newpackage-panics", Input: key, What: msg, Replay: obj{"kind": "c18pkg", "key": key}})
 			return
 		}
@@ -297,7 +352,14 @@ func c18Package(c *Ctx, key string, srcs map[string][]byte, out *ndjson) {
 		if dp != nil {
 			sb = scopeNames(reflect.ValueOf(dp.Scope))
 		}
-		outcomesB[strings.Join(sb, ",")+" | "+strings.Join(normErrs(derr), "; ")] = true
+		ub := []string{}
+		for name, df := range dfiles {
+			for _, u := range df.Unresolved {
+				ub = append(ub, name+":"+u.Name)
+			}
+		}
+		sort.Strings(ub)
+		outcomesB[strings.Join(sb, ",")+" | "+strings.Join(normErrs(derr), "; ")+" | unresolved "+strings.Join(ub, ",")] = true
 	}
 	keysOf := func(m map[string]bool) []string {
 		out := []string{}
@@ -352,6 +414,7 @@ func checkC18(c *Ctx) {
 		"redeclared": {"a.go": []byte("package p\n\nvar A = 1\n\nfunc F() {}\n"), "b.go": []byte("package p\n\nvar A = 2\n\nfunc F() {}\n\ntype A int\n")},
 		"undeclared": {"a.go": []byte("package p\n\nvar A = missing + other.X\n\nfunc F() { undefinedCall(); var x = y }\n")},
 		"mixed-names": {"a.go": []byte("package p\n\nvar A = 1\n"), "b.go": []byte("package q\n\nvar B = A\n")},
+		"imports": {"a.go": []byte("package p\n\nimport \"fmt\"\n\nfunc A() { fmt.Println(len(\"a\")) }\n"), "b.go": []byte("package p\n\nfunc B(x int, s string) rune { var r rune; return r }\n"), "c.go": []byte("package p\n\nimport \"os\"\n\nvar C = os.Args\n\nvar D bool = true\n")},
 		"cycle": {"a.go": []byte("package p\n\ntype A struct{ b *B }\n\nvar X = Y\n"), "b.go": []byte("package p\n\ntype B struct{ a *A }\n\nvar Y = X\n\nconst (\n\tC0 = iota\n\tC1\n)\n")},
 	}
 	var keys []string
